@@ -41,12 +41,6 @@ void BetaDiscreteDistribution::fireParameterChanged(const ParameterList& paramet
   alpha_ = getParameterValue("alpha");
   beta_ = getParameterValue("beta");
 
-  if (alpha_ <= 1 && intMinMax_->getLowerBound() == 0)
-    intMinMax_->setLowerBound(precision(), false);
-
-  if (beta_ <= 1 && intMinMax_->getUpperBound() == 1)
-    intMinMax_->setUpperBound(1 - precision(), false);
-
   diffln_ = exp(RandomTools::lnBeta(alpha_ + 1, beta_) - RandomTools::lnBeta(alpha_, beta_));
   discretize();
 }
